@@ -99,17 +99,22 @@ Definition mout (d : dty) (c : opcase) : iout :=
       | Ok (i, p) => IRows (tdt i) [tv i; tv p]
       | Raise e => IExc e
       end
-  | CGcxsJoin ptrs => one_row (m_gcxs_join d ptrs)
+  | CGcxsJoin ptrs =>
+      (* the spliced index pointer, and the row numbers uncompress_dimension derives from it *)
+      match m_gcxs_join d ptrs with
+      | Ok a => IRows (tdt a) [tv a; tv (m_uncompress (tdt a) (tv a))]
+      | Raise e => IExc e
+      end
   | CUncompress p => let a := m_uncompress d p in IRows (tdt a) [tv a]
   end.
 
 (* the proved domain and, outside it, the number of the failed clause:
-   6 uint64_promotes_to_float    7 gcxs_rows_exceed_indptr_dtype
-   (1-5, the D6 family of getitem / triu / tril, were repaired by 0a2ad47 and 972d3f2) *)
+   6 uint64_promotes_to_float
+   (1-5, the D6 family of getitem / triu / tril, and 7, row numbers beyond the indptr dtype after a
+   GCXS join, were repaired by 0a2ad47, 972d3f2 and 36b3bc9) *)
 Definition failed_clause (t : ity) (c : opcase) : Z :=
   match c with
   | CKron _ | CPad _ | CStack _ => if not_u64 t then 0 else 6
-  | CUncompress p => if uncompress_clause t p then 0 else 7
   | _ => 0
   end.
 
@@ -122,6 +127,7 @@ Definition pre_ok (t : ity) (c : opcase) : bool :=
       all_in n x && (((0 <? step) && (0 <=? start) && (start <=? n)) || ((step <? 0) && (-1 <=? start) && (start <=? n)))
       && fits (DInt t) n
   | CFlip n x | CRoll n _ x => all_in n x && (1 <=? n) && fits (DInt t) n
+  | CUncompress p => uncompress_clause t p        (* kernel level: the hypothesis of the partial theorem *)
   | _ => true
   end.
 
